@@ -46,17 +46,18 @@ type FSSpec struct {
 }
 
 type Faults struct {
-	ReaderFailAt   int  `json:"readerFailAt"` // bytes delivered before the reader fails; -1 = never
-	ReaderMode     int  `json:"readerMode,omitempty"`
+	ReaderFailAt   int  `json:"readerFailAt"`          // bytes delivered before the reader fails; -1 = never
+	ReaderMode     int  `json:"readerMode,omitempty"`  // 0 sticky (0, err); 1 the error arrives with the last bytes, sticky; 2 (0, err) once; 3 (n, err) once, then the reader carries on
 	WriterFailAt   int  `json:"writerFailAt"`          // index of the first failing Write; -1 = never
 	WriterShort    int  `json:"writerShort,omitempty"` // bytes accepted by the failing Write (0 none, n>0 a short write, -1 all of them: (len(p), err))
 	WriterOnce     bool `json:"writerOnce,omitempty"`  // only that one write fails (default: sticky)
 	CallbackFailAt int  `json:"callbackFailAt"`
 	BreakAt        int  `json:"breakAt"`
 	ReaderBlock    int  `json:"readerBlock,omitempty"` // k>0: after k-1 bytes the reader delivers nothing more and its Read blocks (an idle pipe) until the call under test has returned
-	CbErrKind      int  `json:"cbErrKind,omitempty"` // which value the failing callback returns (see CallbackErr)
-	IOKind         int  `json:"ioKind,omitempty"`    // 1: the reader also implements io.WriterTo and the writer io.StringWriter (code may take other paths for them); 2: the reader is also an io.Closer; 3: a *bytes.Reader; 4: an open regular file; 5: a *bufio.Reader around the fault-injecting reader; 7: a *bytes.Buffer; 6: an empty regular file opened write-only (Read fails with EBADF); 8/9: a *bytes.Reader / regular file positioned behind an earlier (hostile) section the caller has already consumed
-	ErrKind        int  `json:"errKind,omitempty"`   // which well-known error the injected reader/writer error additionally wraps (see FaultErr)
+	CbErrKind      int  `json:"cbErrKind,omitempty"`   // which value the failing callback returns (see CallbackErr); 8 in massive mode: the callback calls runtime.Goexit instead of returning
+	CbNested       bool `json:"cbNested,omitempty"`    // From-Root walks: the first callback makes a massive-mode OutputFromRoot call on the same tree
+	IOKind         int  `json:"ioKind,omitempty"`      // 1: the reader also implements io.WriterTo and the writer io.StringWriter (code may take other paths for them); 2: the reader is also an io.Closer; 3: a *bytes.Reader; 4: an open regular file; 5: a *bufio.Reader around the fault-injecting reader; 7: a *bytes.Buffer; 6: an empty regular file opened write-only (Read fails with EBADF); 8/9: a *bytes.Reader / regular file positioned behind an earlier (hostile) section the caller has already consumed
+	ErrKind        int  `json:"errKind,omitempty"`     // which well-known error the injected reader/writer error additionally wraps (see FaultErr)
 }
 
 func NoFaults() Faults {
@@ -94,6 +95,7 @@ type Case struct {
 	ColorPre   bool      `json:"colorPre,omitempty"`   // the PreOps run with colours enabled (fatih/color.NoColor == false), as on a terminal
 	LateProg   []AddStep `json:"lateProg,omitempty"`   // From-Root walkiter only: Add calls made after the iterator was created and before it is ranged over
 	MidProg    []AddStep `json:"midProg,omitempty"`    // From-Root only: Add calls made after the PreOps and before the operation under test
+	MidOps     []string  `json:"midOps,omitempty"`     // operations run after MidProg (the tree has grown since the PreOps); "other-<op>" runs <op> on an unrelated tree
 	RangeTwice bool      `json:"rangeTwice,omitempty"` // walkiter: the same iterator value is ranged over a second time
 	Nest       int       `json:"nest,omitempty"`       // walkiter: k>0 = while the walk is at its visit k-1, another complete walk of the same tree runs (odd k: over the same iterator value, even k: over a new one)
 	NestBreak  bool      `json:"nestBreak,omitempty"`  // the inner walk is left after its first visit
@@ -142,7 +144,8 @@ type Result struct {
 	ReadBytes       int            `json:"readBytes,omitempty"`
 	LateReadBytes   int            `json:"lateReadBytes,omitempty"`   // bytes the reader was asked for after the call had returned
 	CloseDuringRead bool           `json:"closeDuringRead,omitempty"` // the reader's Close was called while one of its Reads was pending
-	ReaderParked bool `json:"readerParked,omitempty"` // a Read was parked on the idle reader (Faults.ReaderBlock)
+	ReaderParked    bool           `json:"readerParked,omitempty"`    // a Read was parked on the idle reader (Faults.ReaderBlock)
+	NestedErr       string         `json:"nestedErr,omitempty"`       // error of the nested call made by the callback (Faults.CbNested)
 	Visits          []Visit        `json:"visits,omitempty"`
 	VisitsAfter     int            `json:"visitsAfter,omitempty"`  // callbacks after the stop position
 	SecondVisits    int            `json:"secondVisits,omitempty"` // visits of the second range over the same iterator value (RangeTwice)
